@@ -34,6 +34,31 @@ func c03Marshal(n tv.Node) (b []byte, panicked string) {
 	return ttlv.MarshalTTLV(&v), ""
 }
 
+// c03NilEmpty: the same tree with every empty byte string / empty structure held as a NIL slice (what a
+// caller building the tree by hand may well pass): an empty value is still an item of length 0.
+func c03NilEmpty(v ttlv.Value) (ttlv.Value, bool) {
+	changed := false
+	switch x := v.Value.(type) {
+	case []byte:
+		if len(x) == 0 {
+			v.Value, changed = []byte(nil), true
+		}
+	case ttlv.Struct:
+		if len(x) == 0 {
+			v.Value, changed = ttlv.Struct(nil), true
+		} else {
+			out := make(ttlv.Struct, len(x))
+			for i := range x {
+				var ch bool
+				out[i], ch = c03NilEmpty(x[i])
+				changed = changed || ch
+			}
+			v.Value = out
+		}
+	}
+	return v, changed
+}
+
 // c03Retained: an encoding the library has handed out stays what it was while the library goes on
 // encoding other values (here and on other goroutines): "every binary encoding produced by the
 // library" is judged when it is USED, not only in the instant it is returned.
@@ -143,6 +168,17 @@ func driveC03(c *h.Ctx) error {
 		caseJSON["encoded_hex"] = hex.EncodeToString(b)
 		if b2, p2 := c03MarshalReused(n); p2 != "" || !bytes.Equal(b, b2) {
 			c.Fail("C03/reused-encoder-output-differs", fmt.Sprintf("on a reused (cleared) encoder the encoding is %x %s", b2, p2), caseJSON)
+		}
+		if nv, ch := c03NilEmpty(tv.ToValue(n)); ch {
+			c.Count("tree-with-nil-empty-values")
+			var nb []byte
+			func() {
+				defer func() { _ = recover() }()
+				nb = ttlv.MarshalTTLV(&nv)
+			}()
+			if !bytes.Equal(nb, b) {
+				c.Fail("C03/nil-empty-value-encoded-differently", fmt.Sprintf("with its empty byte strings / structures held as nil slices the tree encodes to %x", nb), caseJSON)
+			}
 		}
 		if i%4 == 0 || c.Replay != nil {
 			if ow := c03Retained(n); ow != "" {
